@@ -231,7 +231,35 @@ func c19Scoped(w *World, r *Report) {
 					}
 				}
 			}
-			r.Check(ok, "C19/SCOPED-OPTIONS", siteKey(Site{fn, c, posOf(c)}), w.InstrPos(c), "the entry's credentials are added only after the same entry's URL was set as their scope", "a repository entry's credentials are added without that entry's URL as their scope")
+			// options are applied in order and the last WithURL wins: no WithURL of anything else may be
+			// added on a path that also adds these credentials
+			other := ""
+			for _, cc := range callInstrs(fn) {
+				ff, _ := calleeOf(cc.Common())
+				if ff == nil || origin(ff) != wurl {
+					continue
+				}
+				same := false
+				if ld, isLd := cc.Common().Args[0].(*ssa.UnOp); isLd {
+					if fa, isFa := ld.X.(*ssa.FieldAddr); isFa {
+						if _, t, fld := fieldNameOf(fa); t == "Entry" && fld == "URL" && sameEntry(fa.X, entry) {
+							same = true
+						}
+					}
+				}
+				if same {
+					continue
+				}
+				a, _ := g.PathExists(posOf(cc), posOf(c), Avoid{})
+				b, _ := g.PathExists(posOf(c), posOf(cc), Avoid{})
+				if a || b {
+					other = w.InstrPos(cc)
+				}
+			}
+			if other != "" {
+				ok = false
+			}
+			r.Check(ok, "C19/SCOPED-OPTIONS", siteKey(Site{fn, c, posOf(c)}), w.InstrPos(c), "the entry's credentials are added only after the same entry's URL was set as their scope (and no other scope is added with them)", "a repository entry's credentials are added without that entry's URL as their (last) scope"+map[bool]string{true: ": another WithURL at " + other + " is added on the same path and wins", false: ""}[other != ""])
 		}
 	}
 	if n == 0 {
